@@ -142,8 +142,17 @@ func concCheck(id, tier string, quick, thorough time.Duration, progs []prog, qb,
 	return finish(rp, ev, budget)
 }
 
+// withOpt appends a program option (";k=v") to every program.
+func withOpt(ps []string, opt string) []string {
+	out := make([]string, len(ps))
+	for i, p := range ps {
+		out[i] = p + ";" + opt
+	}
+	return out
+}
+
 var genC06 = &genPlan{al: &dbconc.AlphaC06,
-	what: "every unordered pair of client threads with one item each from an alphabet of 11 items (autocommit Set/Delete/Get/GetKeys/Create and whole RU/RC transactions) on key a, pairs of pure readers excluded: quick from the single-version state at 1 deviation; thorough from two initial states at 2 deviations, with a GC actor at 1, and two items against one at 1; and every unordered triple of clients over a 5-item alphabet (two reads; Set; Delete; RC set-commit; RC set-get-get-rollback), 34 programs, at 1 deviation quick / 2 thorough",
+	what: "every unordered pair of client threads with one item each from an alphabet of 11 items (autocommit Set/Delete/Get/GetKeys/Create and whole RU/RC transactions) on key a, pairs of pure readers excluded: quick from the single-version state at 1 deviation; thorough from two initial states at 2 deviations, with a GC actor at 1, and two items against one at 1; and every unordered triple of clients over a 5-item alphabet (two reads; Set; Delete; RC set-commit; RC set-get-get-rollback), 34 programs, at 1 deviation quick / 2 thorough; the pairs once more with a scheduling point after every Unlock (release points)",
 	items: func(tier string, add func([]string, int)) {
 		al := &dbconc.AlphaC06
 		if tier == "thorough" {
@@ -153,11 +162,13 @@ var genC06 = &genPlan{al: &dbconc.AlphaC06,
 			}
 			add(al.Programs(2, 1, al.Inits[0], false), 1)
 			add(dbconc.Programs3(dbconc.TripleItemsC06, 1, al.Inits[0]), 2)
+			add(withOpt(al.Programs(1, 1, al.Inits[0], false), "up=1"), 2)
 			return
 		}
 		// quick: the single-version initial state, no GC actor (the named programs have one)
 		add(al.Programs(1, 1, al.Inits[0], false), 1)
 		add(dbconc.Programs3(dbconc.TripleItemsC06, 1, al.Inits[0]), 1)
+		add(withOpt(al.Programs(1, 1, al.Inits[0], false), "up=1"), 1) // the pairs once more with release points
 	}}
 
 var genC07 = &genPlan{al: &dbconc.AlphaC07,
